@@ -1,1 +1,14 @@
-pub mod types; pub use types::*;
+//! refevm: an independent, deliberately plain reference implementation of the (legacy, non-EOF)
+//! Ethereum Virtual Machine for the forks Frontier..Prague, written from the Yellow Paper, the
+//! EIPs and the execution-specs.  It is used as a differential-testing oracle.
+pub mod arith;
+pub mod gas;
+pub mod interp;
+pub mod state;
+pub mod tx;
+pub mod types;
+pub mod util;
+
+pub use tx::{blob_gas_price, effective_gas_price, execute, floor_gas, intrinsic_gas, validate};
+pub use types::*;
+pub use util::{create2_address, create_address, default_block_hash, keccak256, logs_hash, state_root, storage_root};
